@@ -192,17 +192,35 @@ func bitCodeOpen(b orb.Bound, p orb.Point) int {
 func intersect(box orb.Bound, edge int, a, b orb.Point) orb.Point {
 	if edge&8 != 0 {
 		// top
-		return orb.Point{a[0] + (b[0]-a[0])*(box.Max[1]-a[1])/(b[1]-a[1]), box.Max[1]}
+		return orb.Point{between(a[0]+(b[0]-a[0])*(box.Max[1]-a[1])/(b[1]-a[1]), a[0], b[0]), box.Max[1]}
 	} else if edge&4 != 0 {
 		// bottom
-		return orb.Point{a[0] + (b[0]-a[0])*(box.Min[1]-a[1])/(b[1]-a[1]), box.Min[1]}
+		return orb.Point{between(a[0]+(b[0]-a[0])*(box.Min[1]-a[1])/(b[1]-a[1]), a[0], b[0]), box.Min[1]}
 	} else if edge&2 != 0 {
 		// right
-		return orb.Point{box.Max[0], a[1] + (b[1]-a[1])*(box.Max[0]-a[0])/(b[0]-a[0])}
+		return orb.Point{box.Max[0], between(a[1]+(b[1]-a[1])*(box.Max[0]-a[0])/(b[0]-a[0]), a[1], b[1])}
 	} else if edge&1 != 0 {
 		// left
-		return orb.Point{box.Min[0], a[1] + (b[1]-a[1])*(box.Min[0]-a[0])/(b[0]-a[0])}
+		return orb.Point{box.Min[0], between(a[1]+(b[1]-a[1])*(box.Min[0]-a[0])/(b[0]-a[0]), a[1], b[1])}
 	}
 
 	panic("no edge??")
+}
+
+// between keeps an interpolated coordinate within the segment's own range.
+// Rounding can otherwise put an intersection a hair beyond an end point that
+// is already on the box, e.g. across a corner, and the point gets clipped
+// back and forth between the two sides forever.
+func between(v, p, q float64) float64 {
+	if p > q {
+		p, q = q, p
+	}
+
+	if v < p {
+		return p
+	} else if v > q {
+		return q
+	}
+
+	return v
 }
